@@ -51,6 +51,7 @@ def main (args : List String) : IO UInt32 := do
   | ["mockfs"] => loopState stdin stdout Driver.MockFS.dInit Driver.MockFS.step; stdout.flush; return 0
   | ["tree"] => loopState stdin stdout Driver.MockFS.tInit Driver.MockFS.stepTree; stdout.flush; return 0
   | ["fshash"] => loopState stdin stdout (FsHash.CacheEnt.fresh : Driver.MockFS.HSt) Driver.MockFS.stepHash; stdout.flush; return 0
+  | ["fscursor"] => loopState stdin stdout ({ cursor := 0, latest := 0 } : FsCursor.St) Driver.MockFS.stepFsCursor; stdout.flush; return 0
   | ["connect"] => loopState stdin stdout (Conn.init : Driver.MockFS.CSt) Driver.MockFS.stepConn; stdout.flush; return 0
   | ["c10"] => loopStateless stdin stdout Driver.MonC10.step; stdout.flush; return 0
   | ["lockmon"] => loopStateless stdin stdout Driver.MonC15.step; stdout.flush; return 0
